@@ -246,7 +246,8 @@ def build(case):
             tab.append({'code': len(tab) + 1, 'tag': 0x34, 'children': False, 'attrs': attrs})
             kids.append({'ab': len(tab) - 1, 'vals': vals, 'kids': []})
             xcu['dies'].append(xattrs)
-        un = {'version': ver, 'fmt': fmt, 'addr_size': A, 'ut': 1, 'abtab': len(abtabs), 'dwo_id': 0, 'sig': 0,
+        ctx_ut = cu.get('ut', 1) if v5 else 1
+        un = {'version': ver, 'fmt': fmt, 'addr_size': A, 'ut': ctx_ut, 'abtab': len(abtabs), 'dwo_id': cu.get('sig', 0), 'sig': cu.get('sig', 0), 'type_die': 0,
               'die': {'ab': 0, 'vals': root_vals, 'kids': kids}}
         units.append(un)
         abtabs.append(tab)
@@ -754,6 +755,11 @@ def build_case(ch, tier):
                 cu['rng_block'] = ch.choice(rb)
                 at = at if at is not None else case['rng5'][cu['rng_block']]['addr_table']
             cu['addr_table'] = at
+            # the kind of a v5 unit (compile, partial, skeleton, split compile, type, split type) is a header value like any other: the
+            # lists an entry designates do not depend on it
+            cu['ut'] = ch.choice([1, 1, 1, 3, 4, 5, 2, 6])
+            if cu['ut'] in (2, 4, 5, 6):
+                cu['sig'] = ch.word(64)
         ver = cu['version']
         dies = []
         for _ in range(ch.int(1, 6)):
